@@ -98,14 +98,21 @@ def replay(d):
     try:
         with contextlib.redirect_stdout(io.StringIO()):
             if op == 'add_block':
-                g.add_block(T.t2block(a['name'], float(num(a['volume'])), rocks[a['rock']]))
+                if a['rock'] == 'fresh': nb_ = T.t2block(a['name'], float(num(a['volume'])), T.rocktype(a['rockname']))
+                elif a['rock'] == 'default': nb_ = T.t2block(a['name'], float(num(a['volume'])))
+                else: nb_ = T.t2block(a['name'], float(num(a['volume'])), rocks[a['rock']])
+                g.add_block(nb_)
             elif op == 'delete_block': g.delete_block(a['name'])
             elif op == 'delete_readd_block':
                 blk = g.block.get(a['name'])
                 g.delete_block(a['name'])
                 if blk is not None: g.add_block(blk)
             elif op == 'add_connection':
-                g.add_connection(T.t2connection([blocks[a['pair'][0]], blocks[a['pair'][1]]]))
+                if a.get('foreign'):
+                    fb = T.t2block(a['fname'], 1.0, rocks[0])
+                    g.add_connection(T.t2connection([blocks[a['pair'][0]], fb] if a['foreign'] == 2 else [fb, blocks[a['pair'][0]]]))
+                else:
+                    g.add_connection(T.t2connection([blocks[a['pair'][0]], blocks[a['pair'][1]]]))
             elif op == 'delete_connection': g.delete_connection(tuple(a['names']))
             elif op == 'add_rocktype': g.add_rocktype(T.rocktype(a['name']))
             elif op == 'delete_rocktype': g.delete_rocktype(a['name'])
@@ -133,11 +140,26 @@ def replay(d):
                 dat = D.t2data(); dat.grid = g
                 if d['pre']['bnames']:
                     dat.add_generator(D.t2generator(name='gen 1', block=d['pre']['bnames'][0]))
+                if a.get('data'):
+                    dat.add_generator(D.t2generator(name='gen 1', block=d['pre']['bnames'][1]))
+                    for i, n in enumerate(d['pre']['bnames']): dat.incon[n] = [None, [float(i + 1)]]
+                ngen, ninc = len(dat.generatorlist), len(dat.incon)
                 mp = dict((v, k) for k, v in a['map']) if a.get('invert') else dict((k, v) for k, v in a['map'])
                 dat.rename_blocks(mp, invert=a.get('invert', False), fix_blocknames=a['fix'])
                 res = dat.grid
                 if not (len(res.block) == nlist and len(res.blocklist) == nlist):
                     extra_bad.append(('blocks', 'renaming lost a block: %d names in the lookup, %d blocks in the list' % (len(res.block), len(res.blocklist))))
+                if a.get('data'):
+                    gl, gd = dat.generatorlist, dat.generator
+                    if len(gl) != ngen or len(gd) != len(gl) or set(map(id, gl)) != set(map(id, gd.values())) \
+                            or any(k != (gen.block, gen.name) for k, gen in gd.items()):
+                        extra_bad.append(('data', 'generators: list %r, dict keys %r' % ([(x.block, x.name) for x in gl], sorted(gd))))
+                    if any(gen.block not in res.block for gen in gl):
+                        extra_bad.append(('data', 'a generator sits in a block that is not in the grid: %r' % ([(x.block, x.name) for x in gl],)))
+                    own = [dat.incon.get(b.name, [None, [None]])[1][0] == float(i + 1) for i, b in enumerate(blocks)]
+                    if len(dat.incon) != ninc or not all(own):
+                        extra_bad.append(('data', 'initial conditions: %d entries before, now %r (block i carried value i+1; blocks now %r)' % (
+                            ninc, dict((k, v[1][0]) for k, v in dat.incon.items()), [b.name for b in blocks])))
             elif op == 'minc':
                 blks = None if a['blocks'] is None else [(blocks[i] if a.get('as_objects') else d['pre']['bnames'][i]) for i in a['blocks']]
                 g.minc(list(a['fractions']), spacing=a['spacing'], num_fracture_planes=a['nfp'], blocks=blks)
@@ -148,7 +170,11 @@ def replay(d):
                 if op == 'add': res = g + g2
                 else:
                     res = g.embed(g2, T.t2connection([blocks[a['host']], blocks2[a['sub']]]))
-                    if res is None: return False, 'embed refused (returned None)'
+                    if res is None and not str(d.get('tag', '')).startswith('operand'):
+                        return False, 'embed refused (returned None)'
+                # round 4: the operands must stay consistent too
+                if d.get('tag') == 'operand-self': res = g
+                elif d.get('tag') == 'operand-other': res = g2
             elif op == 'check_fix': g.check(fix=True, silent=True)
             elif op == 'sort_rocktypes': g.sort_rocktypes()
             elif op == 'fromgeo':
